@@ -201,6 +201,21 @@ def ops(fa, schema, d, raw_for_reader=None):
         fo.seek(0)
         return fa.schemaless_reader(fo, copy.deepcopy(wr), schema)
 
+    def sl_options():
+        # reader options reach every position, whether its type is defined there or referred to by name
+        fo = io.BytesIO()
+        fa.schemaless_writer(fo, schema, d)
+        b = fo.getvalue()
+        res = []
+        for o in ({"return_record_name": True}, {"return_named_type": True}, {"return_record_name": True, "return_record_name_override": True},
+                  {"return_named_type": True, "return_named_type_override": True}):
+            res.append(fa.schemaless_reader(io.BytesIO(b), schema, **o))
+        fo = io.BytesIO()
+        fa.writer(fo, schema, [d], sync_marker=b"P" * 16)
+        res.append(list(fa.reader(io.BytesIO(fo.getvalue()), return_record_name=True)))
+        return res
+
+    out["read-with-options"] = outcome(sl_options)
     out["as-reader-schema"] = outcome(resolve)
     out["as-reader-with-added-fields"] = outcome(resolve_added)
     out["schemaless"] = outcome(sl)
